@@ -470,7 +470,32 @@ namespace c15
     {
         unsigned cap, H;
         std::vector<Key> keys;
-        if (enumerate == 2)
+        // mode 3: a first session on the same terminal object (lines entered, history filled), then init() again with another
+        // capacity / history depth and the session proper; mode 4: echo switched off (a password prompt)
+        unsigned cap0 = 0, H0 = 0;
+        std::vector<Key> keys0;
+        const bool silent = enumerate == 4;
+        if (enumerate == 3)
+        {
+            cap0 = (unsigned)s.range(2, 24);
+            H0 = (unsigned)s.range(1, 8);
+            size_t lines = (size_t)s.range(0, 10);
+            for (size_t i = 0; i < lines; i++)
+            {
+                size_t l = (size_t)s.range(0, 4);
+                for (size_t j = 0; j < l; j++)
+                    keys0.push_back(s.below(6) ? text_key((uint8_t)s.pick({'a', 'b', 'c'})) : random_key(s));
+                keys0.push_back(atomic_key(8));
+            }
+            for (size_t i = s.below(4); i > 0; i--)
+                keys0.push_back(random_key(s)); // the first session may end inside a line / a recall / an escape
+            cap = (unsigned)s.range(2, 24);
+            H = (unsigned)s.range(1, 8);
+            size_t n = (size_t)s.range(0, 40);
+            for (size_t i = 0; i < n; i++)
+                keys.push_back(random_key(s));
+        }
+        else if (enumerate == 2)
         {
             cap = (unsigned)s.range(250, 262);
             H = (unsigned)s.range(1, 3);
@@ -489,7 +514,7 @@ namespace c15
             for (size_t i = 0; i < m; i++)
                 keys.push_back(random_key(s));
         }
-        else if (enumerate)
+        else if (enumerate == 1)
         {
             static const unsigned caps[4] = {2, 3, 4, 8};
             uint64_t k = s.below((uint64_t)term_enum_size(tier()));
@@ -519,17 +544,42 @@ namespace c15
             for (size_t i = 0; i < n; i++)
                 keys.push_back(random_key(s));
         }
-        c.log("%s cap=%u hist=%u:", name, cap, H);
+        if (enumerate == 3)
+            c.log("%s first session cap=%u hist=%u, then init() again with cap=%u hist=%u:", name, cap0, H0, cap, H);
+        else
+            c.log("%s cap=%u hist=%u%s:", name, cap, H, silent ? " echo off" : "");
 
         const bool k_echo = known_active(K_ECHO), k_recall = known_active(K_RECALL), k_pair = known_active(K_PAIR);
 
         // On a failure everything is deliberately leaked: no destructor runs over buffers an
         // earlier step may have overrun (the worker exits anyway).
         Sink *sink = new Sink;
-        RefEditor *refp = new RefEditor(cap, H);
-        RefEditor &ref = *refp;
-        Term *term = new Term(cap, H, sink);
+        const bool two = enumerate == 3;
+        const unsigned cap1 = cap, H1 = H;
+        const std::vector<Key> keys1 = keys;
+        RefEditor *refp = new RefEditor(two ? cap0 : cap1, two ? H0 : H1);
+        Term *term = new Term(two ? cap0 : cap1, two ? H0 : H1, sink);
+        if (silent)
+            term->set_echo(false);
         bool saw_ctrlc = false, saw_pair = false, saw_recall = false;
+        size_t nbytes = 0;
+        for (int session = two ? 0 : 1; session < 2; session++)
+        {
+        // the running session's configuration (shadows the generated one)
+        const unsigned cap = session == 0 ? cap0 : cap1, H = session == 0 ? H0 : H1;
+        const std::vector<Key> &keys = session == 0 ? keys0 : keys1;
+        if (two && session == 1)
+        {
+            // the same terminal object starts over: new capacity, new history depth, nothing of the first session left
+            c.log(" | init(%u,%u):", cap, H);
+            delete refp;
+            refp = new RefEditor(cap, H);
+            delete sink;
+            sink = new Sink;
+            term->reinit(cap, H, sink);
+        }
+        (void)H;
+        RefEditor &ref = *refp;
 
         auto expected_row = [&]() { return std::string(PROMPT) + ref.line; };
         auto check = [&](EvKind ev, const char *when) {
@@ -557,6 +607,12 @@ namespace c15
                      term->content().c_str(), len, ref.line.c_str());
             VP_CHECK((size_t)cur == ref.cur, "line_cursor", "%s: cursor=%ld, reference %zu (line \"%s\")", when, cur, ref.cur, ref.line.c_str());
             term->extra_check(ref, ev, when);
+            if (silent)
+            {
+                VP_CHECK(sink->written == 0, "echo_off_output", "%s: echo is off, yet %zu bytes were written to the terminal (screen \"%s\")", when, sink->written,
+                         sink->scr.shown().c_str());
+                return;
+            }
             // screen
             VP_CHECK(sink->scr.err.empty(), "screen_protocol", "%s: %s", when, sink->scr.err.c_str());
             std::string want = expected_row();
@@ -571,7 +627,6 @@ namespace c15
         term->feed(-1); // init step: prints the prompt
         check(EV_NONE, "after the init step");
 
-        size_t nbytes = 0;
         for (size_t i = 0; i < keys.size(); i++)
         {
             c.log(" %s", keys[i].name.c_str());
@@ -625,6 +680,8 @@ namespace c15
             }
         }
 
+        if (session == 0)
+            continue;
         c.nontrivial = ref.nt_mid_edit || ref.nt_recall2 || ref.nt_full;
         if (ref.nt_mid_edit)
             c.label("edit_inside_line");
@@ -640,6 +697,7 @@ namespace c15
             c.label("recall");
         if (ref.execs.size() >= 2)
             c.label("two_lines_executed");
+        }
         (void)nbytes;
         delete term;
         delete refp;
